@@ -17,13 +17,18 @@ ASSUMPTIONS = [
 def T(name, *ops, **kw):
     d = {'name': name, 'ops': list(ops)}; d.update(kw); return d
 
-def S(name, threads, pool_max=0, queues=1, R=3, B=14, oracles=(), order=None, pool_slots=None, cap=3, witness=None, seq=None):
+def S(name, threads, pool_max=0, queues=1, R=3, B=14, oracles=(), order=None, pool_slots=None, cap=3, witness=None, seq=None, setup=None):
     sc = {'name': name, 'pool_max': pool_max, 'queues': queues, 'threads': threads}
     if pool_slots is not None: sc['pool_slots'] = pool_slots
+    if setup is not None:
+        # a deterministic set-up prefix ('A! P0!': each named thread runs until it blocks or finishes) followed by R generic rounds over all threads
+        names = [t['name'] for t in threads if not t.get('final')] + ['P%d' % i for i in range(pool_slots if pool_slots is not None else pool_max)]
+        seq = setup.split() + R * names
     if seq is not None:
         seq = seq.split() if isinstance(seq, str) else list(seq); R = len(seq)
     bounds = {'R': R, 'B': B, 'CAP': cap, 'threads': len(threads) + (pool_slots if pool_slots is not None else pool_max), 'pool_max': pool_max}
     if seq is not None: bounds = dict(bounds, R='explicit slot sequence', slot_sequence=' '.join(seq))
+    if setup is not None: bounds['setup'] = 'deterministic prefix %s (each thread runs until it blocks or finishes), then round-robin rounds over all threads' % setup
     elif order is not None: bounds['thread_order'] = order
     return {'name': name, 'scen': sc, 'R': R, 'B': B, 'oracles': list(oracles), 'order': order, 'seq': seq, 'cap': cap, 'witness': witness, 'bounds': bounds}
 
@@ -45,11 +50,7 @@ def _scenarios(prop, tier, seed=0):
                    pool_max=1, R=3, B=14, oracles=BASE + ('results', 'deadlock', 'quiescent_complete', 'order')))
         L.append(S('c09_p1_try_desync_try', [T('A', ('try_sync', 0), ('desync', 0)), T('B', ('try_sync', 0))],
                    pool_max=1, R=3, B=14, oracles=BASE + ('results', 'deadlock', 'quiescent_complete')))
-        # a late / duplicate wake-up of the waker of an operation that has already finished (stale waker) lands at a solver-chosen point,
-        # e.g. while the try_sync closure is running; afterwards the idle object must accept a try_sync again
-        L.append(S('c09_p1_stale_wake_try', [T('A', ('future_desync', 0, {'fut': ('gate', 0), 'as': 'f'}), ('block_on', 'f'), ('try_sync', 0)), T('W', ('open_gate', 0), ('rewake', 0)),
-                                             T('Z', ('try_sync', 0, {'probe': True}), final=True)],
-                   pool_max=1, R=2, B=30, oracles=BASE + ('results', 'deadlock', 'final_try_sync', 'quiescent_complete')))
+        if q: L += state_matrix('C09', lambda st, k, P: BASE + ('results', 'deadlock', 'order') + (('quiescent_complete',) if P else ()), want=lambda st, k: k == 'try', R=3)
         if not q:
             L.append(S('c09_p0_stale_wake_try', [T('A', ('future_desync', 0, {'fut': ('gate', 0), 'as': 'f'}), ('block_on', 'f'), ('try_sync', 0)), T('W', ('open_gate', 0), ('rewake', 0)),
                                                  T('Z', ('try_sync', 0, {'probe': True}), final=True)],
@@ -58,6 +59,7 @@ def _scenarios(prop, tier, seed=0):
             L.append(S('c09_p1_sync_try_desync', [T('A', ('sync', 0)), T('B', ('try_sync', 0)), T('C', ('desync', 0))],
                        pool_max=1, R=3, B=14, oracles=BASE + ('results', 'deadlock', 'quiescent_complete')))
             L += matrix('C09', lambda a, b, P: BASE + ('results', 'deadlock') + (('quiescent_complete',) if P else ()), want=lambda a, b, P: 'try' in (a, b))
+            L += state_matrix('C09', lambda st, k, P: BASE + ('results', 'deadlock', 'order') + (('quiescent_complete',) if P else ()), want=lambda st, k: k == 'try')
             L.append(S('c09_p1_fut_try', [T('A', ('future_desync', 0, {'fut': ('gate', 0), 'as': 'f'}), ('detach', 'f')), T('B', ('try_sync', 0)), T('W', ('open_gate', 0))],
                        pool_max=1, R=3, B=14, oracles=BASE + ('results', 'deadlock', 'quiescent_complete')))
     elif prop == 'C03':
@@ -80,6 +82,7 @@ def _scenarios(prop, tier, seed=0):
             L.append(S('c03_p2_three_queues', [T('A', ('desync', 0)), T('B', ('desync', 1)), T('C', ('desync', 2))], pool_max=2, queues=3, R=3, B=14,
                        oracles=BASE + ('quiescent_complete',)))
             L += matrix('C03', lambda a, b, P: BASE + ('quiescent_complete',), pools=(1,))
+            L += state_matrix('C03', lambda st, k, P: BASE + ('quiescent_complete',), want=lambda st, k: st in ('wfw', 'runpool', 'pending', 'suspended'))
     elif prop == 'C04':
         L.append(S('c04_p0_sync_sync_desync', [T('A', ('sync', 0)), T('B', ('sync', 0)), T('C', ('desync', 0))], pool_max=0, R=3, B=14,
                    oracles=BASE + ('results', 'deadlock')))
@@ -94,6 +97,7 @@ def _scenarios(prop, tier, seed=0):
         # two callers blocked in the background-wait path at once, no pool: when the first finishes, the second must be told to take the queue over
         L.append(S('c04_p0_three_syncs_seq', [T('A', ('sync', 0)), T('B', ('sync', 0)), T('C', ('sync', 0))], pool_max=0, seq='A B C A B C', B=26,
                    oracles=BASE + ('results', 'deadlock')))
+        if q: L += state_matrix('C04', lambda st, k, P: BASE + ('results', 'deadlock', 'order'), want=lambda st, k: k == 'sync', R=2)
         if not q: L.append(S('c04_p1_fut_sync_busy_pool', [T('A', ('future_desync', 0, {'fut': ('gate', 0), 'as': 'f'}), ('detach', 'f'), ('desync', 1, {'acts': ['enter', ('gate', 1), 'exit']})), T('B', ('sync', 0)), T('W', ('open_gate', 0))],
                    pool_max=1, queues=2, R=3, B=16, oracles=BASE + ('results', 'deadlock')))
         if not q:
@@ -102,17 +106,24 @@ def _scenarios(prop, tier, seed=0):
             L.append(S('c04_p1_two_objects', [T('A', ('desync', 0, GATE)), T('B', ('sync', 0)), T('C', ('sync', 1)), T('W', ('open_gate', 0))],
                        pool_max=1, queues=2, R=3, B=14, oracles=BASE + ('results', 'deadlock')))
             L += matrix('C04', lambda a, b, P: BASE + ('results', 'deadlock'), want=lambda a, b, P: 'sync' in (a, b))
+            L += state_matrix('C04', lambda st, k, P: BASE + ('results', 'deadlock', 'order'), want=lambda st, k: k == 'sync')
     elif prop == 'C01':
         L.append(S('c01_p1_desync_sync', [T('A', ('desync', 0)), T('B', ('sync', 0))], pool_max=1, R=3, B=14, oracles=BASE))
         L.append(S('c01_p1_desync_try', [T('A', ('desync', 0)), T('B', ('try_sync', 0))], pool_max=1, R=3, B=14, oracles=BASE))
         L.append(S('c01_p0_sync_sync_try', [T('A', ('sync', 0)), T('B', ('sync', 0)), T('C', ('try_sync', 0))], pool_max=0, R=3, B=14, oracles=BASE))
         L.append(S('c01_p0_fut_sync_sync', [T('A', ('future_desync', 0, {'fut': ('gate', 0), 'as': 'f'}), ('detach', 'f'), ('sync', 0)), T('B', ('sync', 0)), T('W', ('open_gate', 0))], pool_max=0, R=(2 if q else 3), B=(20 if q else 16), oracles=BASE))
+        # a future operation suspended on the pool thread is woken while a try_sync arrives (the queue passes through Idle with the operation
+        # still queued between the waker's state store and its reschedule)
+        L.append(S('c01_p1_fut_try_seq', [T('A', ('future_desync', 0, {'fut': ('gate', 0), 'as': 'f'}), ('detach', 'f')), T('B', ('try_sync', 0)), T('W', ('open_gate', 0))],
+                   pool_max=1, seq='A! P0 W B W P0 B P0', B=16, oracles=BASE))
+        if q: L += state_matrix('C01', lambda st, k, P: BASE, want=lambda st, k: k in ('try', 'sync', 'desync'), R=2)
         if not q:
             L.append(S('c01_p1_desync_sync_try', [T('A', ('desync', 0)), T('B', ('sync', 0)), T('C', ('try_sync', 0))], pool_max=1, R=3, B=14, oracles=BASE))
             L.append(S('c01_p1_desync2_sync', [T('A', ('desync', 0), ('desync', 0)), T('B', ('sync', 0))], pool_max=1, R=3, B=16, oracles=BASE))
             L.append(S('c01_p1_fut_sync', [T('A', ('future_desync', 0, {'fut': ('gate', 0), 'as': 'f'}), ('detach', 'f')), T('B', ('sync', 0)), T('W', ('open_gate', 0))],
                        pool_max=1, R=3, B=14, oracles=BASE))
             L += matrix('C01', lambda a, b, P: BASE)
+            L += state_matrix('C01', lambda st, k, P: BASE)
             # stale waker: an operation drained by A's sync left a waker behind that fires late, while a second future operation is suspended
             # on the pool thread, and a try_sync arrives
             L.append(S('c01_p1_stale_wake_try', [T('A', ('future_desync', 0, {'fut': ('gate', 0), 'as': 'f'}), ('detach', 'f'), ('sync', 0), ('future_desync', 0, {'fut': ('gate', 1), 'as': 'g'}), ('detach', 'g'), ('try_sync', 0)),
@@ -123,10 +134,17 @@ def _scenarios(prop, tier, seed=0):
         L.append(S('c02_p0_sync_desync_sync', [T('A', ('sync', 0)), T('B', ('desync', 0), ('sync', 0))], pool_max=0, R=3, B=14, oracles=BASE + ('order',)))
         L.append(S('c02_p1_desync_sync', [T('A', ('desync', 0)), T('B', ('sync', 0))], pool_max=1, R=3, B=14, oracles=BASE + ('order',)))
         L.append(S('c02_p1_fut_desync', [T('A', ('future_desync', 0, {'fut': ('gate', 0), 'as': 'f'}), ('detach', 'f'), ('desync', 0)), T('W', ('open_gate', 0))], pool_max=1, R=3, B=16, oracles=BASE + ('order',)))
+        # a hand-polled future operation: the poll claims the pending queue itself (its schedule entry stays behind), the job returns Pending and
+        # the queue is parked for the next poll; a pool thread that pops the stale entry may take the parked queue over at any point of that
+        # hand-over, with a later desync (made after future_desync returned: gate 6) queued behind the unfinished operation
+        L.append(S('c02_p1_poll_takeover', [T('A', ('future_desync', 0, {'fut': ('gate', 0), 'as': 'f'}), ('wait_gate', 6), ('poll', 'f'), ('detach', 'f')), T('B', ('open_gate', 6), ('desync', 0)),
+                                            T('W', ('open_gate', 0))], pool_max=1, setup='A!', R=2, B=24, oracles=BASE + ('order', 'deadlock', 'quiescent_complete')))
+        if q: L += state_matrix('C02', lambda st, k, P: BASE + ('order',), want=lambda st, k: k in ('try', 'sync', 'desync'), R=2)
         if not q:
             L.append(S('c02_p1_desync_desync_sync', [T('A', ('desync', 0), ('desync', 0)), T('B', ('sync', 0))], pool_max=1, R=3, B=16, oracles=BASE + ('order',)))
             L.append(S('c02_p1_desync_try_sync', [T('A', ('desync', 0), ('try_sync', 0)), T('B', ('sync', 0))], pool_max=1, R=3, B=16, oracles=BASE + ('order',)))
             L += matrix('C02', lambda a, b, P: BASE + ('order',))
+            L += state_matrix('C02', lambda st, k, P: BASE + ('order',))
     elif prop == 'C10':
         L.append(S('c10_p2_gate_other', [T('A', ('desync', 0, GATE)), T('B', ('desync', 1))], pool_max=2, queues=2, R=(2 if q else 3), B=16,
                    oracles=BASE + ('independent',), witness='ungated_done'))
@@ -170,7 +188,7 @@ def _scenarios(prop, tier, seed=0):
         L.append(S('c06_p0_stale_other_thread', [T('A', ('future_desync', 0, {'fut': ('gate', 0), 'as': 'f'}), ('detach', 'f'), ('sync', 0)),
                                                  T('B', ('future_desync', 0, {'fut': ('gate', 1), 'as': 'g'}), ('detach', 'g'), ('sync', 0), after=['A']),
                                                  T('W', ('open_gate', 0), ('rewake', 0), ('open_gate', 1))],
-                   pool_max=0, seq='A W A B W B W B', B=24, oracles=BASE + ('deadlock', 'results')))
+                   pool_max=0, seq='A! W A! B! W B W B', B=24, oracles=BASE + ('deadlock', 'results')))
     elif prop == 'C07':
         L.append(S('c07_p1_await', [T('A', ('future_desync', 0, {'fut': 'ready', 'as': 'f'}), ('block_on', 'f'))], pool_max=1, R=3, B=16,
                    oracles=BASE + ('deadlock', 'fut_results')))
@@ -220,8 +238,8 @@ def _scenarios(prop, tier, seed=0):
         # a hand-polled future operation (polled while there is no pool thread: the caller drains, the queue waits for the next poll), then a
         # pool thread becomes available and takes the woken queue over; the future is dropped unfinished and the Desync is dropped while the
         # pool thread is inside the operation
-        L.append(S('c05_p0_poll_takeover_drop', [T('A', ('d_new', 'd'), ('d_future_desync', 'd', {'fut': ('gate', 0), 'as': 'f'}), ('poll', 'f'), ('set_max', 1), ('drop_fut', 'f'), ('d_drop', 'd')),
-                                               T('W', ('open_gate', 0))], pool_max=0, pool_slots=1, queues=0, seq='A W P0 A P0 A P0', B=34, oracles=MEM))
+        L.append(S('c05_p0_poll_takeover_drop', [T('A', ('d_new', 'd'), ('d_future_desync', 'd', {'fut': ('gate', 0), 'as': 'f'}), ('poll', 'f'), ('set_max', 1), ('wait_gate', 5), ('drop_fut', 'f'), ('d_drop', 'd')),
+                                               T('W', ('open_gate', 0), ('open_gate', 5))], pool_max=0, pool_slots=1, queues=0, seq='A! W P0 A P0 A P0', B=30, oracles=MEM))
         if not q:
             L.append(S('c05_p1_two_desync_drop', [T('A', ('d_new', 'd'), ('d_desync', 'd'), ('d_desync', 'd'), ('d_drop', 'd'))], pool_max=1, queues=0, R=3, B=18, oracles=MEM))
             L.append(S('c05_p0_desync_drop', [T('A', ('d_new', 'd'), ('d_desync', 'd'), ('d_drop', 'd'))], pool_max=0, queues=0, R=2, B=24, oracles=MEM))
@@ -334,6 +352,51 @@ def matrix(prop, oracles_for, pools=(0, 1), want=None, R=3, B=14, seed=0):
                 # with a second caller the liveness oracles would demand more than the properties state, the safety oracles stay
                 if P == 0 and heavy: orc = tuple(o for o in orc if o not in ('deadlock', 'quiescent_complete', 'fut_results'))
                 L.append(S('%s_mx_p%d_%s_%s' % (prop.lower(), P, ka, kb), ths, pool_max=P, R=R, B=B + 2 * heavy, oracles=orc))
+    return L
+
+# Thorough tier: the "state matrix".  A deterministic set-up prefix drives one object into each of the queue states the properties name
+# (C04: "whether the queue is idle, pending, being run by a pool thread, suspended on a future or being drained by another caller";
+# C09: "for every queue state"), then a second caller B issues one operation of each kind while the event that ends the state (gate
+# opening = wake-up / job completion / resume) fires at a solver-chosen point: R generic rounds over all threads.
+SMX_STATES = ('wfw', 'wfu', 'wfp', 'runpool', 'runsync', 'pending', 'suspended', 'stale_pool', 'stale_drain')
+
+def smx_setup(st):
+    """-> (threads of the set-up, pool_max, queues, setup string, event thread ops)"""
+    if st == 'wfw':       # future operation suspended on the pool thread (WaitingForWake)
+        return [T('A', ('future_desync', 0, {'fut': ('gate', 0), 'as': 'fA'}), ('detach', 'fA'))], 1, 1, 'A! P0!', [('open_gate', 0)]
+    if st == 'wfu':       # future operation suspended in a thread draining the queue inside sync (WaitingForUnpark), no pool
+        return [T('A', ('future_desync', 0, {'fut': ('gate', 0), 'as': 'fA'}), ('detach', 'fA'), ('sync', 0))], 0, 1, 'A!', [('open_gate', 0)]
+    if st == 'wfp':       # future operation suspended after a hand poll drained the queue (WaitingForPoll), no pool
+        return [T('A', ('future_desync', 0, {'fut': ('gate', 0), 'as': 'fA'}), ('poll', 'fA'), ('wait_gate', 5), ('block_on', 'fA'))], 0, 1, 'A!', [('open_gate', 0), ('open_gate', 5)]
+    if st == 'runpool':   # job running on the pool thread (blocked on gate 1 inside the job)
+        return [T('A', ('desync', 0, {'acts': ['enter', ('gate', 1), 'exit']}))], 1, 1, 'A! P0!', [('open_gate', 1)]
+    if st == 'runsync':   # closure of a sync caller running (blocked on gate 1 inside the closure), no pool
+        return [T('A', ('sync', 0, {'acts': ['enter', ('gate', 1), 'exit']}))], 0, 1, 'A!', [('open_gate', 1)]
+    if st == 'pending':   # queue Pending in the schedule while the pool's only thread is busy with another object
+        return [T('A', ('desync', 1, {'acts': ['enter', ('gate', 1), 'exit']}), ('desync', 0))], 1, 2, 'A! P0!', [('open_gate', 1)]
+    if st == 'suspended': # queue suspended (resumer held by A until gate 5 opens)
+        return [T('A', ('suspend', 0, {'as': 's'}), ('block_on', 's'), ('wait_gate', 5), ('resume', 's', 'resume'))], 1, 1, 'A! P0! A!', [('open_gate', 5)]
+    # stale waker: a future operation has completed (the object is idle again) and the event source fires a kept clone of its last waker
+    # late, at a solver-chosen point of B's operation (the operation was run by the pool thread / by the awaiting task itself, no pool)
+    if st == 'stale_pool':
+        return [T('A', ('future_desync', 0, {'fut': ('gate', 0), 'as': 'fA'}), ('block_on', 'fA'), ('open_gate', 5))], 1, 1, 'A! P0! W! P0! A! P0!', [('open_gate', 0), ('wait_gate', 5), ('rewake', 0)]
+    if st == 'stale_drain':
+        return [T('A', ('future_desync', 0, {'fut': ('gate', 0), 'as': 'fA'}), ('block_on', 'fA'), ('open_gate', 5))], 0, 1, 'A! W! A!', [('open_gate', 0), ('wait_gate', 5), ('rewake', 0)]
+    raise KeyError(st)
+
+def state_matrix(prop, oracles_for, want=None, R=3, B=16, kinds=('desync', 'sync', 'try', 'fdes_await', 'fsync')):
+    L = []
+    for st in SMX_STATES:
+        for kb in kinds:
+            if want is not None and not want(st, kb): continue
+            ths, P, nq, setup, ev = smx_setup(st)
+            opsb, gb = mx_ops(kb, 'B', 0, 2)
+            heavy = kb in ('fdes_await', 'fsync')
+            orc = tuple(oracles_for(st, kb, P))
+            if P == 0 and (heavy or st in ('wfp',)): orc = tuple(o for o in orc if o not in ('deadlock', 'quiescent_complete', 'fut_results'))
+            if st == 'suspended': orc = tuple(o for o in orc if o != 'order') + ('suspend',)
+            # resuming needs one more hand-over (W opens the gate, A resumes, the pool thread runs the held work, B returns)
+            L.append(S('%s_smx_%s_%s' % (prop.lower(), st, kb), ths + [T('B', *opsb), T('W', *ev)], pool_max=P, queues=nq, R=R + (1 if st == 'suspended' else 0), B=B + (4 if heavy else 0), setup=setup, oracles=orc, cap=(4 if kb == 'fsync' else 3)))
     return L
 
 def rotate_orders(L, seed):
